@@ -42,6 +42,17 @@ class World:
             if fn.endswith(".py"):
                 name = "ptera" if fn == "__init__.py" else "ptera." + fn[:-3]
                 self.load(name, os.path.join(pkg, fn))
+        # dependency-under-contract: giving.gvn (SourceProxy) is interpreted from the INSTALLED source
+        try:
+            import importlib.util
+
+            spec = importlib.util.find_spec("giving")
+            if spec and spec.submodule_search_locations:
+                p = os.path.join(list(spec.submodule_search_locations)[0], "gvn.py")
+                if os.path.exists(p):
+                    self.load("giving.gvn", p)
+        except Exception:  # pragma: no cover
+            pass
         for name, path in (extra or {}).items():
             self.load(name, path)
 
@@ -69,6 +80,9 @@ class World:
             body = found.body
             node = found
         return mod, chain[:-1], node
+
+    def dep_sha(self, modname):
+        return hashlib.sha256(self.modules[modname].source.encode()).hexdigest()
 
     def sha(self, target):
         mod, _, node = self.find(target)
